@@ -640,7 +640,7 @@ INT_TYPES = {"i128": "I128", "I256": "I256"}
 SMALL = {"u32", "u8", "i32", "usize", "u64"}
 NATTY = {"u32", "u8", "usize", "u64", "u128"}
 BITS = {"u8": 8, "u32": 32, "u64": 64, "usize": 64, "u128": 128}
-OPAQUE = {"Env", "CheckpointType", "Hasher!", "Context"}   # parameters of these types are keys / handles: dropped
+OPAQUE = {"Env", "CheckpointType", "Hasher!", "Context", "Key!"}   # parameters of these types are keys / handles: dropped
 
 
 def as_nat(l, t):
@@ -873,6 +873,9 @@ class Gen:
             if t == "MuxedAddress":
                 return (l, "Address")
             raise Unsupported(f".address() of {t}")
+        if e == ("mcall", ("mcall", ("var", "e"), "ledger", []), "max_live_until_ledger", []) and "max_ttl" in getattr(self, "reads", {}):
+            self.uses_reads = True
+            return (f"(OZ.Host.Cfg.maxLiveUntil {self.CFG} envr.ledger_sequence)", "u32")
         if e == ("mcall", ("mcall", ("var", "e"), "ledger", []), "max_live_until_ledger", []) and "max_live_until_ledger" in getattr(self, "reads", {}):
             self.uses_reads = True
             return ("envr.max_live_until_ledger", self.reads["max_live_until_ledger"])
@@ -985,6 +988,9 @@ class Gen:
                     cell, kargs = ko
                     if "$st" not in env:
                         raise Unsupported("storage read outside a store function")
+                    if self.is_temp(cell):
+                        self.uses_reads = True
+                        return (f"(OZ.Host.Temp.get? ({env['$st'][0]}.{cell}{''.join(' ' + a for a in kargs)}) envr.ledger_sequence)", f"Option<{self.store[cell][1]}>")
                     return (f"({env['$st'][0]}.{cell}{''.join(' ' + a for a in kargs)})", f"Option<{self.store[cell][1]}>")
                 if key[0] == "path":
                     name = "get_" + key[1][-1]
@@ -997,6 +1003,8 @@ class Gen:
         """a storage key expression -> (cell name, [argument atoms]) of the store record, or None"""
         key = self.strip(key)
         store = getattr(self, "store", None) or {}
+        if key[0] == "var" and key[1] in getattr(self, "key_params", {}) and key[1] not in env:
+            return (self.key_params[key[1]], [])
         if key[0] == "var" and key[1] in env and env[key[1]][1].startswith("Key:"):
             cell = env[key[1]][1][4:]
             return (cell, [a for a in env[key[1]][0].split("\x00") if a])
@@ -1013,6 +1021,11 @@ class Gen:
                 args_.append(l)
             return (cell, args_)
         return None
+
+    def is_temp(self, cell):
+        return len(self.store[cell]) > 2 and self.store[cell][2] == "temp"
+
+    CFG = "(⟨envr.min_temp_ttl, envr.max_ttl⟩ : OZ.Host.Cfg)"
 
     def is_storage(self, r):
         r = self.strip(r)
@@ -1524,6 +1537,18 @@ class Gen:
                 e = self.strip(s[1])
                 if e[0] == "mcall" and self.is_storage(e[1]):
                     if e[2] == "extend_ttl":
+                        ko = self.key_of(e[3][0], env) if e[3] else None
+                        if ko is not None and self.is_temp(ko[0]) and len(e[3]) == 3:
+                            # a temporary entry WITH its lifetime (host rules of OZ/Model/Host.lean)
+                            cell, kargs = ko
+                            ka = "".join(" " + x for x in kargs)
+                            a1, t1_ = self.pure(e[3][1], env)
+                            a2, t2_ = self.pure(e[3][2], env)
+                            ev_ = self.fresh("e")
+                            self.uses_reads = True
+                            st2 = f"({self.cur_ns}.Store.set_{cell} {env['$st'][0]}{ka} {ev_})"
+                            return (f"(tempExtend {self.CFG} ({env['$st'][0]}.{cell}{ka}) envr.ledger_sequence {as_nat(a1, t1_)} {as_nat(a2, t2_)} fun {ev_} =>\n"
+                                    f" {go(i + 1, dict(env, **{'$st': (st2, 'Store')}))})")
                         # TTL bookkeeping: outside the functional state (archival is not modelled)
                         return go(i + 1, env)
                     if e[2] == "set" and len(e[3]) == 2:
@@ -1534,6 +1559,10 @@ class Gen:
                         def kset(a, t):
                             vt = self.store[cell][1]
                             a2 = as_nat(a, t) if vt in NATTY else a
+                            if self.is_temp(cell):
+                                self.uses_reads = True
+                                ka_ = "".join(" " + x for x in kargs)
+                                a2 = f"(OZ.Host.Temp.set {self.CFG} ({env['$st'][0]}.{cell}{ka_}) envr.ledger_sequence {a2})"
                             st2 = f"({self.cur_ns}.Store.set_{cell} {env['$st'][0]}{''.join(' ' + x for x in kargs)} {a2})"
                             return go(i + 1, dict(env, **{"$st": (st2, "Store")}))
                         return self.tr(e[3][1], env, kset, ret)
@@ -1887,6 +1916,9 @@ FILES_MERKLE = [("Merkle", "packages/contract-utils/src/crypto/hashable.rs", ["c
                 ("Merkle", "packages/contract-utils/src/crypto/merkle.rs", ["verify", "verify_with_index"])]
 TYMAPS_MERKLE = {"packages/contract-utils/src/crypto/hashable.rs": {"H": "Bytes32", "S": "Hasher!", "Output": "Bytes32"},
                  "packages/contract-utils/src/crypto/merkle.rs": {"H": "Hasher!"}}
+STORE_RT = {"RoleTransfer": {"Pending": ([], "Address", "temp"), "Active": ([], "Address")}}
+READS_RT = {"RoleTransfer": {"ledger_sequence": "u32", "min_temp_ttl": "u32", "max_ttl": "u32", "authorized": "addr2bool"}}
+FILES_RT = [("RoleTransfer", "packages/access/src/role_transfer/storage.rs", ["transfer_role", "accept_transfer"])]
 STORE_NFT = {"Nft": {"Approval": (["u32"], "ApprovalData"), "ApprovalForAll": (["Address", "Address"], "u32")}}
 STRUCTS_NFT = {"ApprovalData": [("approved", "Address"), ("live_until_ledger", "u32")]}
 READS_NFT = {"Nft": {"ledger_sequence": "u32", "authorized": "addr2bool"}}
@@ -1957,7 +1989,7 @@ def deps(e, acc):
 
 
 def translate(repo, FILES=FILES, DEPS=(), imports=("OZ.Model.RustSem",), reads=None, structs=None, tymaps=None,
-              store=None, impl_types=None, stubs=None, rename_types=None):
+              store=None, impl_types=None, stubs=None, rename_types=None, key_params=None):
     """DEPS: files translated elsewhere whose signatures are needed (parsed, not emitted);
     reads: {namespace: {getter name: Rust type}} — the side-effect-free state getters (`Self::name(e)`)
     that become fields of the record `<namespace>.Reads` passed to every function of that namespace"""
@@ -2074,10 +2106,13 @@ def translate(repo, FILES=FILES, DEPS=(), imports=("OZ.Model.RustSem",), reads=N
             if store and ns in store:
                 out.append(f"/-- the contract storage the translated functions read and write: one field per storage key\n"
                            f"variant (a missing entry is `none`); TTL bookkeeping is not part of it -/\nstructure {ns}.Store where")
-                for cell, (atys, vt) in store[ns].items():
-                    out.append(f"  {cell} : {''.join(g0.lean_ty(t_) + ' → ' for t_ in atys)}Option {g0.lean_ty(vt)}")
+                def vty(spec):
+                    return f"(OZ.Host.Temp {g0.lean_ty(spec[1])})" if len(spec) > 2 and spec[2] == "temp" else g0.lean_ty(spec[1])
+                for cell, spec in store[ns].items():
+                    out.append(f"  {cell} : {''.join(g0.lean_ty(t_) + ' → ' for t_ in spec[0])}Option {vty(spec)}")
                 out.append("")
-                for cell, (atys, vt) in store[ns].items():
+                for cell, spec in store[ns].items():
+                    atys, vt = spec[0], spec[1]
                     ks = " ".join(f"(k{j} : {g0.lean_ty(t_)})" for j, t_ in enumerate(atys))
                     if atys:
                         xs = " ".join(f"x{j}" for j in range(len(atys)))
@@ -2085,7 +2120,7 @@ def translate(repo, FILES=FILES, DEPS=(), imports=("OZ.Model.RustSem",), reads=N
                         body_ = f"fun {xs} => if {cond_} then some v else s.{cell} {xs}"
                     else:
                         body_ = "some v"
-                    out.append(f"def {ns}.Store.set_{cell} (s : {ns}.Store) {ks} (v : {g0.lean_ty(vt)}) : {ns}.Store :=\n  {{ s with {cell} := {body_} }}\n")
+                    out.append(f"def {ns}.Store.set_{cell} (s : {ns}.Store) {ks} (v : {vty(spec)}) : {ns}.Store :=\n  {{ s with {cell} := {body_} }}\n")
                     body_d = body_.replace("some v", "none")
                     out.append(f"def {ns}.Store.del_{cell} (s : {ns}.Store) {ks} : {ns}.Store :=\n  {{ s with {cell} := {body_d} }}\n")
         names = [f[1] for f in fns]
@@ -2114,6 +2149,7 @@ def translate(repo, FILES=FILES, DEPS=(), imports=("OZ.Model.RustSem",), reads=N
         g.store = (store or {}).get(ns)
         g.store_ns = set(store or {})
         g.impl_types = impl_types or {}
+        g.key_params = key_params or {}
         g.writers = writers
         g.enums = enums
         g.structs = structs or {}
@@ -2410,7 +2446,11 @@ def main():
                 sys.stdout.write(txt)
         sys.exit(rc)
     try:
-        if "--nft" in sys.argv:
+        if "--role-transfer" in sys.argv:
+            txt = translate(repo, FILES_RT, imports=("OZ.Model.RustSemHost",), reads=READS_RT, store=STORE_RT,
+                            tymaps={"packages/access/src/role_transfer/storage.rs": {"T": "Key!", "U": "Key!"}},
+                            key_params={"pending_key": "Pending", "active_key": "Active"})
+        elif "--nft" in sys.argv:
             txt = translate(repo, FILES_NFT, reads=READS_NFT, structs=STRUCTS_NFT, store=STORE_NFT, impl_types={"Base": "Nft"},
                             rename_types={"ApprovalData": "Nft.ApprovalData"})
         elif "--simple-threshold" in sys.argv:
